@@ -87,13 +87,11 @@ impl ClassBody {
 }
 
 impl Dependencies for ClassBody {
+    /// The parameters of a method or of the constructor are variables of that function alone (they
+    /// are already taken out of its own `net_dependencies`): a class body supplies nothing to the
+    /// other members.
     fn supplies(&self) -> Vec<Dependency> {
-        let mut features_sup: Vec<Dependency> =
-            self.features.iter().flat_map(|x| x.supplies()).collect();
-
-        features_sup.append(&mut self.constructor.supplies());
-
-        features_sup
+        vec![]
     }
 
     fn dependencies(&self) -> Vec<Dependency> {
